@@ -4,7 +4,7 @@ import json
 
 def run(ctx):
     decs = ctx.pick('{"nil", "A", "B"}', '{"nil", "A", "A2", "B"}')
-    for n in ctx.pick((1, 2, 3, 4), (1, 2, 3, 4, 5, 6)):
+    for n in ctx.pick((1, 2, 3, 4, 5), (1, 2, 3, 4, 5, 6)):
         r = ctx.model_check("consensus", "MC_VoteSet", "MC_VoteSet.cfg",
                             constants={"N": n, "Decs": decs if n <= 5 else '{"nil", "A", "B"}'},
                             coverage=(n == 4), timeout=ctx.pick(300, 1800))
@@ -15,14 +15,14 @@ def run(ctx):
     if ctx.replay:
         allb = [json.load(open(ctx.replay))["detail"]["behaviour"]]
     else:
-        for n, d in ctx.pick(((3, 3), (4, 3)), ((1, 6), (2, 4), (3, 4), (4, 3), (5, 3))):
+        for n, d in ctx.pick(((2, 4), (3, 3), (4, 3)), ((1, 6), (2, 5), (3, 4), (4, 3), (5, 3))):
             allb += ctx.behaviours("consensus", "Gen_VoteSet", "Gen_VoteSet.cfg",
                                    constants={"N": n, "MaxOps": d, "Depth": d}, timeout=600)
-        for n in ctx.pick((1, 4, 7), (1, 2, 3, 4, 5, 6, 7, 10)):
+        for n in ctx.pick((1, 2, 4, 5, 7, 8), (1, 2, 3, 4, 5, 6, 7, 8, 10, 11)):
             wl = ctx.pick(30, 60)
             allb += ctx.behaviours("consensus", "Gen_VoteSet", "Gen_VoteSet.cfg",
                                    constants={"N": n, "MaxOps": wl, "Depth": wl, "Decs": '{"nil", "A", "A2", "B"}'},
-                                   simulate="num=%d" % ctx.pick(300, 3000), depth=wl + 1, seed=ctx.seed + n,
+                                   simulate="num=%d" % ctx.pick(150, 3000), depth=wl + 1, seed=ctx.seed + n,
                                    timeout=600)
     inp = ctx.path("in", "behaviours.ndjson")
     with open(inp, "w") as fh:
